@@ -112,6 +112,26 @@ def _append_mut(a, i):
     return a
 
 
+class _Sloppy:
+    """a small value class whose comparisons only work among its own kind (a hand-written __eq__ that reads other.v without an
+    isinstance check): comparing it with anything else raises AttributeError"""
+
+    def __init__(self, v):
+        self.v = v
+
+    def __eq__(self, other):
+        return self.v == other.v
+
+    def __ne__(self, other):
+        return self.v != other.v
+
+    def __hash__(self):
+        return hash(('sloppy', self.v))
+
+    def __repr__(self):
+        return '_Sloppy(%r)' % (self.v,)
+
+
 class _PlainStrSub(str):
     pass
 
@@ -179,7 +199,15 @@ class _NoArgsBoom(Boom):
         return self
 
 
-BOOMS += [_FrozenBoom, _NoArgsBoom]
+class _MuteBoom(Boom):
+    """an application exception whose __str__ returns an optional message attribute that is None: raising, catching and passing it
+    on work; only str(e) / f'{e}' / logging it with %s fail (TypeError: __str__ returned non-string)"""
+
+    def __str__(self):
+        return None
+
+
+BOOMS += [_FrozenBoom, _NoArgsBoom, _MuteBoom]
 
 
 def boom_for(item_id, item):
@@ -253,6 +281,9 @@ _FUNCS = {
     'dt': lambda: (lambda i: _EPOCH + _timedelta(seconds=i)),
     # no timestamp at all: time_split used for its closing_mapper only (no timeout configured)
     'tnone': lambda: (lambda i: None),
+    # sub-second resolution: item i is i MILLISECONDS after a recent instant with a fractional second; the timeouts of the cfg are then
+    # milliseconds too (200 ms, 150 ms, 1.2 s ... are not multiples of the grid of a float holding epoch seconds)
+    'dtms': lambda: (lambda i: _datetime(2024, 10, 3, 12, 0, 0, 403000) + _timedelta(milliseconds=i)),
     # the same instants as timezone-AWARE datetimes whose UTC offset changes from item to item (local-time logs across a
     # daylight-saving change, records from several regions): they compare by instant, not by wall-clock fields
     'dtz': lambda: (lambda i: (_EPOCH_UTC + _timedelta(seconds=i)).astimezone(_timezone(_timedelta(hours=(i % 5) - 2, minutes=30 * (i % 2))))),
@@ -369,6 +400,9 @@ _FUNCS = {
     'divtag': lambda k: (lambda i: Tag('tag%d' % ((i // k) // 2) if (i // k) % 2 else 'TAG%d' % ((i // k) // 2))),
     # EQUAL values of DIFFERENT classes inside one run: a plain str next to a str subclass (a parsed field next to the application's
     # str-mixin Enum), a tuple next to a namedtuple, a bool next to a numpy.bool_ - `!=` says they are the same
+    # values that can only be compared with their own kind (every value of the stream is of that kind)
+    'divsloppy': lambda k: (lambda i: _Sloppy(i // k)),
+    'ksloppy': lambda k: (lambda i: _Sloppy(i % k)),
     'kcls': lambda k: (lambda i: _CLS_FORMS[k % 3][i % 2](i % k)),
     'divcls': lambda k: (lambda i: _CLS_FORMS[k % 3][i % 2](i // k)),       # (one family per predicate: numpy scalars do not compare with tuples)
     'divnan': lambda k: (lambda i: _THE_NAN if (i // k) % 3 == 1 else (i // k)),
@@ -678,7 +712,7 @@ def out_type(node, t):
     return o
 
 
-INT_FUNCS = {'kapprox', 'kobj', 'sub', 'tonp', 'knp', 'modnp', 'divnp', 'divnpf', 'npgt', 'kcent', 'divcent', 'divbool', 'divnone', 'divnan', 'divobj', 'divobjt', 'divtag', 'divcls', 'kcls', 'add', 'mul', 'mod', 'div', 'neg', 'pair', 'pairmod', 'rep', 'upto', 'opt', 'half', 'tofloat', 'nt', 'even', 'odd',
+INT_FUNCS = {'kapprox', 'kobj', 'sub', 'tonp', 'knp', 'modnp', 'divnp', 'divnpf', 'npgt', 'kcent', 'divcent', 'divbool', 'divnone', 'divnan', 'divobj', 'divobjt', 'divtag', 'divcls', 'kcls', 'divsloppy', 'ksloppy', 'add', 'mul', 'mod', 'div', 'neg', 'pair', 'pairmod', 'rep', 'upto', 'opt', 'half', 'tofloat', 'nt', 'even', 'odd',
              'modeq', 'modeqnone', 'modeqstr', 'modne', 'modtruthy', 'kt', 'ks', 'kbig', 'kf', 'kmix', 'kneg', 'kmers', 'ktneg', 'divt', 'divs', 'divbig', 'divhuge', 'divf', 'divpar'}
 NUM_FUNCS = {'gt', 'lt', 'trunc', 'scale10'}
 ANY_FUNCS = {'id', 'digest', 'dgt', 'true', 'false', 'kdig', 'digpar', 'ktype'}
@@ -776,7 +810,8 @@ def build_node(node, env=None, taps=None, path=()):
             if name == 'split':
                 return call(rs.data.split, [('predicate', fn(node[1], env)), ('pipeline', inner)], salt)
             cfg = node[1]
-            conv = (lambda v: None if v is None else _timedelta(seconds=v)) if cfg.get('time') in ('dt', 'dtz') else (lambda v: v)
+            conv = (lambda v: None if v is None else _timedelta(seconds=v)) if cfg.get('time') in ('dt', 'dtz') else \
+                (lambda v: None if v is None else _timedelta(milliseconds=v)) if cfg.get('time') == 'dtms' else (lambda v: v)
             return call(rs.data.time_split, [
                 ('time_mapper', fn(cfg.get('time', 'id'), env)),
                 ('active_timeout', conv(cfg.get('active'))), ('inactive_timeout', conv(cfg.get('inactive'))),
